@@ -21,6 +21,7 @@ import (
 	"testing"
 	"time"
 
+	"git.arvados.org/arvados.git/sdk/go/arvados"
 	"git.arvados.org/arvados.git/sdk/go/arvadosclient"
 )
 
@@ -487,6 +488,33 @@ func verifC03Sess(f []string) string {
 				kc.BlockCache.Sweep()
 				out = append(out, fmt.Sprintf("f:%x:%s", p[:n], verifC03Class(err)))
 			case 'k':
+				if len(op) > 1 && (op[1] == 's' || op[1] == 'c' || op[1] == 'e') {
+					// k(s|c|e)<h>:<signed offset>: Seek with an explicit whence
+					whence := map[byte]int{'s': io.SeekStart, 'c': io.SeekCurrent, 'e': io.SeekEnd}[op[1]]
+					p2 := strings.Split(op[2:], ":")
+					if len(p2) != 2 || strings.HasPrefix(p2[1], "+") {
+						return "bad-op"
+					}
+					h, e1 := strconv.Atoi(p2[0])
+					d, e2 := strconv.ParseInt(p2[1], 10, 64)
+					if e1 != nil || e2 != nil || h < 0 || strings.HasPrefix(p2[0], "+") || strings.HasPrefix(p2[0], "-") {
+						return "bad-op"
+					}
+					if h >= len(handles) || handles[h] == nil {
+						out = append(out, "k:noopen")
+						continue
+					}
+					pos, err := handles[h].Seek(d, whence)
+					switch {
+					case err == nil:
+						out = append(out, fmt.Sprintf("k:%d", pos))
+					case err == arvados.ErrNegativeOffset:
+						out = append(out, fmt.Sprintf("k:neg:%d", pos))
+					default:
+						out = append(out, "k:"+verifC03Class(err))
+					}
+					continue
+				}
 				h, off, ok := handleArg(op[1:])
 				if !ok {
 					return "bad-op"
